@@ -8,6 +8,6 @@ From TauModel Require Import Base Num Oracles Value Syntax Generated Token Pratt
 Extraction "../runner/model.ml"
   tokenise parse into_identifier parse_identifier load_rule load_detection solve_rule3
   solve_cond solve_body pure_doc matches validate obj_find yaml_as_value example_doc
-  sem_rule spec_known spec_known_all known_classes known_d10 known_d24 c01_scope c01_scope_all c01_scope_nested c01_scope_nested_all c01_scope_quant_all c01_scope_quant_all_noq c01_scope_wide rust_ord optimise optimise_detection shake rewrite coalesce matrix shake_fuel
+  sem_rule spec_known spec_known_all known_classes known_d10 known_d24 c01_scope c01_scope_all c01_scope_nested c01_scope_nested_all c01_scope_quant_all c01_scope_quant_all_noq c01_scope_wide sh0 no_dneg shx all_trees staged known_d16 known_d17 run_safe pre_matrix cmp_reads match_safe no_match body_neg entry_trees sw_without_matrix rust_ord optimise optimise_detection shake rewrite coalesce matrix shake_fuel
   show_Z show_N binding_power keywords
   Z.add Z.mul Z.opp Z.of_N Z.to_N N.of_nat N.to_nat Z.ltb Z.eqb N.add N.mul.
